@@ -60,7 +60,7 @@ EXTRA = {
  "C09": " Also: a lost append acknowledgement on the durable-streams store; a store that completes only after the persistence deadline.",
  "C10": " Also: a failed-then-retried SaveOffset on SQLite; concurrent appends on the memory store; streamed events retained beyond the iteration step.",
  "C11": " Also: replay resumed from event offsets on the durable-streams store (strict server; lenient server = recorded finding), 11-12 events in one response.",
- "C12": " Also: a resumed subscription followed by a fault; SQLite streaming row by row.",
+ "C12": " Also: a resumed subscription followed by a fault; SQLite streaming row by row; the durable-streams store with a separate subscription store (death mid-replay, restart) through the transport model.",
  "C13": " Also: appends acknowledged after the deadline passed, an application hook after the store, a publisher deadline next to the persistence timeout.",
  "C15": " Also: same-name distinct (function-local) types, instantiated generic types, the state package's own messages (unit in package state).",
  "C16": " Also: every sequence/order of registrations over arbitrary SMT-string names through the public API (5-6 registrations), typed registration with arbitrary TypeNamer names.",
